@@ -273,6 +273,27 @@ structure PaxState where
   sparseStarted : Bool := false        -- `sparse_last != NULL`
   offset : Nat := 0                    -- last "GNU.sparse.offset"
 
+/-- what `read_pax_header` does with one parsed record `key=value` of total length `len`: the handler table
+    (`find_handler` / `apply_handler`, `set_by_pax |= flag`), else the two GNU.sparse 0.0 keywords, else ignore -/
+def paxApply (pc : PaxCfg) (st : PaxState) (key value : Bytes) (len : Nat) : Option (PaxState × Nat) :=
+  match findHandler key with
+  | some k =>
+    match applyHandler pc st.out k key value with
+    | none => none
+    | some o => some ({ st with out := o, mask := setFlag st.mask (kindFlag k) }, len)
+  | none =>
+    if key = ascii "GNU.sparse.offset" then
+      match parseUint (cstr value) with
+      | none => none
+      | some (v, _) => some ({ st with offset := v }, len)
+    else if key = ascii "GNU.sparse.numbytes" then
+      match parseUint (cstr value) with
+      | none => none
+      | some (v, _) =>
+        let sp := if st.sparseStarted then st.out.sparse ++ [(st.offset, v)] else [(st.offset, v)]
+        some ({ st with out := { st.out with sparse := sp }, sparseStarted := true }, len)
+    else some (st, len)
+
 /-- one iteration of the `for (line = buffer; line < end; line += len)` loop on the remaining bytes `l`;
     result: new state and `len` -/
 def paxLine (pc : PaxCfg) (st : PaxState) (l : Bytes) : Option (PaxState × Nat) :=
@@ -295,25 +316,8 @@ def paxLine (pc : PaxCfg) (st : PaxState) (l : Bytes) : Option (PaxState × Nat)
           match after with
           | 61 :: valueArea =>
             if key.isEmpty then none
-            else
-              let value := valueArea.dropLast                  -- `len - (value - line) - 1` bytes
-              match findHandler key with
-              | some k =>
-                match applyHandler pc st.out k key value with
-                | none => none
-                | some o => some ({ st with out := o, mask := setFlag st.mask (kindFlag k) }, len)
-              | none =>
-                if key = ascii "GNU.sparse.offset" then
-                  match parseUint (cstr value) with
-                  | none => none
-                  | some (v, _) => some ({ st with offset := v }, len)
-                else if key = ascii "GNU.sparse.numbytes" then
-                  match parseUint (cstr value) with
-                  | none => none
-                  | some (v, _) =>
-                    let sp := if st.sparseStarted then st.out.sparse ++ [(st.offset, v)] else [(st.offset, v)]
-                    some ({ st with out := { st.out with sparse := sp }, sparseStarted := true }, len)
-                else some (st, len)
+            else paxApply pc st key valueArea.dropLast         -- value: `len - (value - line) - 1` bytes
+                   len
           | _ => none
 
 def paxLoop (pc : PaxCfg) : Nat → PaxState → Bytes → Option PaxState
